@@ -124,13 +124,58 @@ Proof.
       * eexists; split; reflexivity.
 Qed.
 
-Lemma json_row_ok : forall r, forallb term_wf (row_terms r) = true -> json_row (bindingToJSON r) = Some (bound_of r).
+Lemma py_Variable_ok : forall v, name_ok v = true -> py_Variable v = Some v.
 Proof.
-  unfold bindingToJSON, json_row.
-  induction r as [|[k [t|]] r IH]; simpl; intro H; auto.
-  - apply andb_true_iff in H. destruct H as [Ht Hr].
-    destruct (json_term t Ht) as [j [Hj Hp]]. simpl in Hj. rewrite Hj. simpl. rewrite Hp.
-    specialize (IH Hr). simpl in IH. rewrite IH. reflexivity.
+  intros [|c r] H; [discriminate|]. simpl in H. apply negb_true_iff in H. simpl. now rewrite H.
+Qed.
+
+Lemma dict_set_fresh : forall V k (v : V) d, ~ In k (keys d) -> dict_set k v d = d ++ [(k, v)].
+Proof.
+  induction d as [|[k' v'] r IH]; simpl; intro H; [reflexivity|].
+  destruct (str_eqb_spec k k'); [subst; tauto|]. rewrite IH by tauto. reflexivity.
+Qed.
+
+Lemma keys_app : forall V (a b : list (str * V)), keys (a ++ b) = keys a ++ keys b.
+Proof. intros. unfold keys. apply map_app. Qed.
+
+Lemma json_row_fold : forall r d,
+  NoDup (keys d ++ keys r) -> forallb name_ok (keys r) = true -> forallb term_wf (row_terms r) = true ->
+  fold_left (fun acc kv => match acc, py_Variable (fst kv), parseJsonTerm (snd kv) with
+                           | Some d0, Some k, Some t => Some (dict_set k t d0)
+                           | _, _, _ => None
+                           end)
+            (flat_map (fun kv => match termToJSON (snd kv) with Some j => [(fst kv, j)] | None => [] end) r)
+            (Some d)
+  = Some (d ++ bound_of r).
+Proof.
+  induction r as [|[k [t|]] r IH]; intros d Hnd Hn Ht.
+  - simpl. now rewrite app_nil_r.
+  - simpl in Hn, Ht. apply andb_true_iff in Hn. destruct Hn as [Hk Hn]. apply andb_true_iff in Ht. destruct Ht as [Htt Ht].
+    destruct (json_term t Htt) as [j [Hj Hp]].
+    cbn [flat_map snd fst]. rewrite Hj. cbn [app fold_left fst snd]. rewrite (py_Variable_ok k Hk), Hp.
+    simpl in Hnd. rewrite dict_set_fresh.
+    + rewrite IH; auto.
+      * cbn [bound_of flat_map snd fst app]. rewrite <- app_assoc. reflexivity.
+      * rewrite keys_app. simpl. rewrite <- app_assoc. exact Hnd.
+    + apply NoDup_remove_2 in Hnd. intro Hin. apply Hnd. apply in_or_app. auto.
+  - simpl in Hn. apply andb_true_iff in Hn. destruct Hn as [_ Hn].
+    cbn [flat_map snd fst termToJSON app]. cbn [bound_of flat_map snd app]. apply IH; auto.
+    simpl in Hnd. apply NoDup_remove_1 in Hnd. exact Hnd.
+Qed.
+
+Lemma json_row_ok : forall r,
+  NoDup (keys r) -> forallb name_ok (keys r) = true -> forallb term_wf (row_terms r) = true ->
+  json_row (bindingToJSON r) = Some (bound_of r).
+Proof.
+  intros r Hnd Hn Ht. unfold bindingToJSON, json_row. rewrite json_row_fold; auto.
+Qed.
+
+Lemma row_names_ok : forall vars r, forallb name_ok vars = true -> row_wf vars r = true ->
+  NoDup (keys r) /\ forallb name_ok (keys r) = true /\ forallb term_wf (row_terms r) = true.
+Proof.
+  intros vars r Hv H. unfold row_wf in H. apply andb_true_iff in H. destruct H as [H Ht].
+  apply andb_true_iff in H. destruct H as [Hnd Hk]. split; [apply nodup_str_NoDup; auto|]. split; auto.
+  apply forallb_forall. intros k Hin. rewrite forallb_forall in Hk, Hv. apply Hv. apply memb_str_In. auto.
 Qed.
 
 Section Json.
@@ -141,17 +186,18 @@ Section Json.
   Hypothesis loads_dumps : forall v, loads (dumps v) = v.
 
   Lemma json_select : forall vars rows,
-    forallb (row_wf vars) rows = true ->
+    forallb name_ok vars = true -> forallb (row_wf vars) rows = true ->
     json_parse (loads (dumps (json_serialize None vars rows))) = OSel vars (map bound_of rows).
   Proof.
-    intros vars rows H. rewrite loads_dumps. unfold json_serialize, json_parse.
+    intros vars rows Hv H. rewrite loads_dumps. unfold json_serialize, json_parse.
     change (jget k_boolean (JObj _)) with (@None json).
-    cbn -[all_some map json_row bindingToJSON].
+    cbn -[all_some map json_row bindingToJSON py_Variable].
     rewrite map_map.
     rewrite (all_some_map (fun x => json_row (bindingToJSON x)) bound_of).
     - rewrite map_map. rewrite all_some_map_id; auto.
-    - intros r Hin. apply json_row_ok. rewrite forallb_forall in H. specialize (H r Hin).
-      unfold row_wf in H. apply andb_true_iff in H. tauto.
+      intros v Hin. apply py_Variable_ok. rewrite forallb_forall in Hv. auto.
+    - intros r Hin. rewrite forallb_forall in H. specialize (H r Hin).
+      destruct (row_names_ok vars r Hv H) as [H1 [H2 H3]]. apply json_row_ok; auto.
   Qed.
 
   Lemma json_ask : forall b vars rows,
